@@ -24,7 +24,7 @@ RULE = ("base configs: dfs 3x3 n=4 (full format), wilson 4x4 n=5 seed 7 with a p
         "of a foreign config (each field changed in turn, n_mazes only, trailing collect_generation_meta, foreign extra filter) or a "
         "non-dataset object saved under the requested name; all 64 flag combinations x 4 file states; random fault/request sequences "
         "with interrupted saves. distinct = distinct (config, step list); non-trivial = the file was present and damaged/foreign, or "
-        "a save was interrupted.; later additions: cache files whose config lacks a filter or a kwargs key the REQUEST has, colliding file names, zip-record faults, requests whose returned dataset the caller edits in place before asking again")
+        "a save was interrupted.; later additions: cache files whose config lacks a filter or a kwargs key the REQUEST has, colliding file names, zip-record faults, requests whose returned dataset the caller edits in place before asking again, two requests differing only in a maze count >= 1000 against one cache directory")
 ASSUMPTIONS = ["a damaged .zanj file makes ZANJ.read raise or return the dataset that was saved (zipfile CRC / json / np.load): validated on every "
                "enumerated fault, not proved",
                "ZANJ read(save(ds)) returns ds (C05's subject); checked here on every file left behind",
